@@ -32,6 +32,16 @@ var (
 		sql.LevelSerializable:    ASELevelSerializableRead,
 		sql.LevelLinearizable:    ASELevelInvalid,
 	}
+
+	// ase2sql maps dblib.ASEIsolationLevel back to sql.IsolationLevel.
+	// It is a separate table since sql2ase is not injective and
+	// ranging over a map has no defined order.
+	ase2sql = map[ASEIsolationLevel]sql.IsolationLevel{
+		ASELevelReadUncommitted:  sql.LevelReadUncommitted,
+		ASELevelReadCommitted:    sql.LevelReadCommitted,
+		ASELevelRepeatableRead:   sql.LevelRepeatableRead,
+		ASELevelSerializableRead: sql.LevelSerializable,
+	}
 )
 
 // ASEIsolationLevelFromGo take a database/sql.IsolationLevel and returns
@@ -52,10 +62,8 @@ func ASEIsolationLevelFromGo(lvl sql.IsolationLevel) (ASEIsolationLevel, error) 
 // ToGo returns the database/sql.IsolationLevel equivalent of the ASE
 // isolation level.
 func (lvl ASEIsolationLevel) ToGo() sql.IsolationLevel {
-	for sqlLvl, aseLvl := range sql2ase {
-		if aseLvl == lvl {
-			return sqlLvl
-		}
+	if sqlLvl, ok := ase2sql[lvl]; ok {
+		return sqlLvl
 	}
 
 	return sql.LevelDefault
